@@ -200,12 +200,12 @@ theorem fieldByName_render (name : Bytes) (x : Doc) (hg : Good x) :
     fieldByName name (.iface (render x)) = (projGet name x).map render := by
   cases hg with
   | null => simp [render, fieldByName, isEmptyValue, projGet]
-  | bool b => simp [render, fieldByName, isEmptyValue, projGet, RV.derefOnce, RV.kind, RV.elem, RV.of]
-  | num d => simp [render, fieldByName, isEmptyValue, projGet, RV.derefOnce, RV.kind, RV.elem, RV.of]
-  | str s h => simp [render, fieldByName, isEmptyValue, projGet, RV.derefOnce, RV.kind, RV.elem, RV.of]
-  | arr xs _ => simp [render, fieldByName, isEmptyValue, projGet, RV.derefOnce, RV.kind, RV.elem, RV.of]
+  | bool b => simp [render, fieldByName, isEmptyValue, projGet, RV.derefOnce, RV.derefAll, GoVal.strip, RV.kind, RV.elem, RV.of]
+  | num d => simp [render, fieldByName, isEmptyValue, projGet, RV.derefOnce, RV.derefAll, GoVal.strip, RV.kind, RV.elem, RV.of]
+  | str s h => simp [render, fieldByName, isEmptyValue, projGet, RV.derefOnce, RV.derefAll, GoVal.strip, RV.kind, RV.elem, RV.of]
+  | arr xs _ => simp [render, fieldByName, isEmptyValue, projGet, RV.derefOnce, RV.derefAll, GoVal.strip, RV.kind, RV.elem, RV.of]
   | obj ks vs hl hu hgs =>
-    simp only [render, fieldByName, isEmptyValue, projGet, RV.derefOnce, RV.kind, RV.elem, RV.of]
+    simp only [render, fieldByName, isEmptyValue, projGet, RV.derefOnce, RV.derefAll, GoVal.strip, RV.kind, RV.elem, RV.of]
     simp only [beq_self_eq_true, Bool.or_true, if_true, Bool.false_eq_true, if_false]
     rw [findMapKey_spec name ks (renderList vs) vs rfl hl (hu name)]
     cases hs : specGet name ks vs with
@@ -231,12 +231,12 @@ theorem renderList_isEmpty (xs : List Doc) : (renderList xs).isEmpty = xs.isEmpt
 
 /-- the first-element test of `getValuesByName` on an interface-typed slot -/
 theorem headKind (x : Doc) :
-    (let k := ((RV.iface (render x)).derefOnce).kind; (k == Kind.struct || k == Kind.map)) = headOk x := by
-  cases x <;> simp [render, RV.derefOnce, RV.kind, RV.elem, RV.of, GoVal.kind, isObj, isNum, headOk]
+    (let k := ((RV.iface (render x)).derefAll).kind; (k == Kind.struct || k == Kind.map)) = headOk x := by
+  cases x <;> simp [render, RV.derefAll, GoVal.strip, RV.kind, RV.elem, RV.of, GoVal.kind, isObj, isNum, headOk]
 
 theorem valuesByName_slice (name : Bytes) (g : GoVal) (gs : List GoVal) :
     valuesByName name (.slice true false (g :: gs)) =
-      (if !((((RV.iface g).derefOnce).kind == Kind.struct) || (((RV.iface g).derefOnce).kind == Kind.map)) then .knf else
+      (if !((((RV.iface g).derefAll).kind == Kind.struct) || (((RV.iface g).derefAll).kind == Kind.map)) then .knf else
        if (((g :: gs).map RV.iface).filterMap (fieldByName name)).isEmpty then .knf
        else .ok (.slice true false (((g :: gs).map RV.iface).filterMap (fieldByName name)))) := by
   rfl
@@ -283,7 +283,7 @@ theorem identDo_prim (name : Bytes) (d : Doc) (h : ∀ ks vs, d ≠ .obj ks vs) 
   cases d with
   | null => simp [render, identDo, RV.of, RV.derefOnce, RV.kind, valuesByName, isEmptyValue]
   | bool b => cases b <;> simp [render, identDo, RV.of, RV.derefOnce, RV.kind, GoVal.kind, valuesByName, isEmptyValue]
-  | num x => simp [render, identDo, RV.of, RV.derefOnce, RV.kind, GoVal.kind, valuesByName, isEmptyValue, fieldByName]
+  | num x => simp [render, identDo, RV.of, RV.derefOnce, RV.derefAll, GoVal.strip, RV.kind, GoVal.kind, valuesByName, isEmptyValue, fieldByName]
   | str s => cases s <;> simp [render, identDo, RV.of, RV.derefOnce, RV.kind, GoVal.kind, valuesByName, isEmptyValue]
   | arr xs => exact absurd rfl (h2 xs)
   | obj ks vs => exact absurd rfl (h ks vs)
